@@ -35,6 +35,7 @@ SHAPES = {
     "TSD_TSS": {"k": "TSD", "el": {"k": "TSS"}},
     "TSB_TSL": {"k": "TSB", "fs": [TS, {"k": "TSL", "n": 2, "el": TS}]},
     "TSD_TSB": {"k": "TSD", "el": {"k": "TSB", "fs": [TS, TS]}},
+    "TSD_TSD": {"k": "TSD", "el": {"k": "TSD", "el": TS}},
     "DTSL": {"k": "TSL", "n": 8, "dyn": 1, "el": TS},      # dynamic (unsized) TSL<TS<Int>>, indices 0..7
 }
 KEEP_COLL = {"ops", "w", "p", "ret"}
@@ -60,7 +61,7 @@ def scenario(name, shape, cycles, end, late=2, rr=True):
     return "\n".join(lines)
 
 
-def random_op(rng, shape, nkeys, nvals, allow_inv, live=()):
+def random_op(rng, shape, nkeys, nvals, allow_inv, live=(), extras=True):
     """allow_inv: also invalidate - scalars, and composite positions (root TSB / fixed TSL, the nested list of TSB{a,l}, a TSB
     child of a TSD whose key is in `live`)"""
     k = lambda: rng.randint(1, nkeys)
@@ -82,6 +83,8 @@ def random_op(rng, shape, nkeys, nvals, allow_inv, live=()):
         if allow_inv and r < 0.07:
             return op("inv")                      # the whole bundle / list
         return op("inv", (i,)) if allow_inv and r < 0.16 else op("set", (i,), (v(),))
+    if shape in ("TSD", "TSD_TSS", "TSD_TSB") and 0.88 < r < 0.93 and extras:
+        return op("new", (), (k(),)) if r < 0.91 else op("touch")      # a key without a value / a tick that changes nothing
     if shape == "TSD":
         if r < 0.55:
             return op("set", (k(),), (v(),))
@@ -92,6 +95,14 @@ def random_op(rng, shape, nkeys, nvals, allow_inv, live=()):
         if r < 0.6:
             return op("rem", (k(),), (v(),))
         return op("del", (), (k(),)) if r < 0.95 else op("clr")
+    if shape == "TSD_TSD":
+        if r < 0.5:
+            return op("set", (k(), k()), (v(),))
+        if r < 0.75:
+            return op("del", (k(),), (k(),))           # erase an inner key
+        if r < 0.8:
+            return op("clr", (k(),))                    # clear an inner dictionary
+        return op("del", (), (k(),)) if r < 0.96 else op("clr")
     if shape == "TSB_TSL":
         if allow_inv and r < 0.2:
             return [op("inv"), op("inv", (1,)), op("inv", (1,)), op("inv", (1, rng.randrange(2))), op("inv", (0,))][int(r * 25)]
@@ -126,7 +137,7 @@ def random_script(rng, shape, horizon, nkeys, nvals, maxops, allow_inv):
                 # aim at the element touched last (cancellations, repeated writes of one key)
                 prev = ops[-1]
                 tgt = prev["p"][0] if prev["p"] else (prev["a"][0] if prev["a"] else None)
-                if tgt is not None and shape in ("TSS", "TSD", "TSD_TSS", "TSD_TSB"):
+                if tgt is not None and shape in ("TSS", "TSD", "TSD_TSS", "TSD_TSB", "TSD_TSD"):
                     if o["p"]:
                         o["p"][0] = tgt
                     elif o["a"]:
@@ -223,17 +234,21 @@ def model_check(chk, quick):
     from concurrent.futures import ThreadPoolExecutor
     nsim = 60 if quick else 3000
     jobs = {
-        "exhaustive": lambda: hg.tlc("MCCollections", "Collections.quick.cfg" if quick else "Collections.thorough.cfg", workers=max(2, hg.NCPU - 5),
+        "exhaustive": lambda: hg.tlc("MCCollections", "Collections.quick.cfg" if quick else "Collections.thorough.cfg", workers=max(2, hg.NCPU - 7),
                                      timeout=3600, metatag="coll-a"),
+        # the dynamic list with its ring of modified children: up to 4 distinct children per cycle, behaviours printed
+        "dynlist": lambda: hg.tlc("MCCollections", "Collections.dyn.cfg", workers=2, timeout=1200, metatag="coll-e"),
         "behaviours": lambda: hg.tlc("MCCollections", "Collections.emit.cfg", workers=2, timeout=1200, metatag="coll-b"),
         "asis": lambda: hg.tlc("MCCollections", "Collections.asis.cfg", workers=1, timeout=1200, metatag="coll-c"),
         "simulation": lambda: hg.tlc("MCCollections", "Collections.sim.cfg", workers=2, simulate="num=%d" % nsim, depth=400, timeout=900,
                                      extra=["-seed", str(hg.seed())], metatag="coll-d"),
     }
-    with ThreadPoolExecutor(max_workers=4) as ex:
+    if not quick:
+        jobs["dynlist-thorough"] = lambda: hg.tlc("MCCollections", "Collections.dynthorough.cfg", workers=4, timeout=3600, metatag="coll-f")
+    with ThreadPoolExecutor(max_workers=6) as ex:
         futs = {k: ex.submit(f) for k, f in jobs.items()}
         res = {k: f.result() for k, f in futs.items()}
-    for k in ("exhaustive", "behaviours", "simulation"):
+    for k in [j for j in ("exhaustive", "behaviours", "simulation", "dynlist", "dynlist-thorough") if j in res]:
         if res[k].violation:
             raise hg.MachineryError("Collections.tla violates its invariants (%s; spec defect):\n%s" % (k, res[k].violation))
         chk.add_tlc(res[k], "Collections-" + k)
@@ -242,7 +257,7 @@ def model_check(chk, quick):
     chk.notes["design_counterexample_F2"] = ("found: the pre-fix resurrection branch (FixF2 = FALSE; /repo 4212fba repaired it) violates ValueIsPrevPlusDelta"
                                              if v and "ValueIsPrevPlusDelta" in v else
                                              "NOT found - Collections.tla with FixF2 = FALSE no longer shows the F2 counterexample (vacuity: check the model)")
-    return hg.printed_json(res["behaviours"], "COLL"), hg.printed_json(res["simulation"], "COLL")
+    return hg.printed_json(res["behaviours"], "COLL"), hg.printed_json(res["simulation"], "COLL"), hg.printed_json(res["dynlist"], "COLL")
 
 
 def behaviour_case(k, b, origin):
@@ -378,12 +393,14 @@ def main():
     quick = chk.tier == "quick"
     rng = random.Random(hg.seed() * 977 + int(pid[1:]))
     # 1. level B against level A's coherence conditions, exhaustively; its behaviours become scenarios
-    behs, sims = model_check(chk, quick)
-    chk.notes["model_behaviours"] = {"exhaustive_instance": len(behs), "simulated": len(sims)}
+    behs, sims, dyns = model_check(chk, quick)
+    chk.notes["model_behaviours"] = {"exhaustive_instance": len(behs), "simulated": len(sims), "dynamic_list_instance": len(dyns)}
     if quick:      # deterministic samples; thorough runs all of the small instance and all simulated behaviours
         behs = [behs[i] for i in sorted(rng.sample(range(len(behs)), min(len(behs), 250)))]
         sims = [sims[i] for i in sorted(rng.sample(range(len(sims)), min(len(sims), 60)))]
-    cases = [behaviour_case(k, b, "mc") for k, b in enumerate(behs)] + [behaviour_case(k, b, "sim") for k, b in enumerate(sims)]
+        dyns = [dyns[i] for i in sorted(rng.sample(range(len(dyns)), min(len(dyns), 50)))]
+    cases = ([behaviour_case(k, b, "mc") for k, b in enumerate(behs)] + [behaviour_case(k, b, "sim") for k, b in enumerate(sims)]
+             + [behaviour_case(k, b, "dyn") for k, b in enumerate(dyns)])
     chk.notes["model_behaviours"]["executed"] = len(cases)
     # 2. op-dense random scripts over the whole shape menu (nested shapes, invalidations, slot growth / reuse in thorough)
     cases += random_cases(rng, 250 if quick else 6000, chk.tier)
